@@ -482,6 +482,13 @@ entry("C02", "median_default_node", file=MED_RS, impl=r"impl<T,\s*const N: usize
       script="intros. reflexivity.",
       cases=[dict(self=("unit",), lhs="(fun i => {| value := @None T; previous := (i + n - 1) mod n; next := (i + 1) mod n |}) index", vars="(n index : nat)")], rhs="",
       render=lambda sym, s_, r_, c_: sym.node_text(sym.final_env.vars["item"]))
+# the rest of `Median::default`: with the node array (whose initialisation loop is the entry above and C19_uninit_loop_initialises)
+# taken as given, the three cursors start at 0 and the state is the model's `init`
+entry("C02", "median_default_rest", file=MED_RS, impl=r"impl<T,\s*const N: usize>\s+Default\s+for\s+Median<T,\s*N>", fn="default", params={},
+      opaque_lets={"buffer": ("raw", "(buffer (@Median.init T n))")}, imports="Model.Median", script="intros. reflexivity.",
+      cases=[dict(self=("unit",), lhs="(@Median.init T n)", vars="(n : nat)")], rhs="",
+      render=lambda sym, s_, r_, c_: "{| buffer := %s; cursor := %s; head := %s; median := %s |}" % tuple(
+          [_R.coq_V(r_[1]["state"][1]["buffer"])] + [_R.as_nat(r_[1]["state"][1][k_]) or "?" for k_ in ("cursor", "head", "median")]))
 entry("C18", "hampel_filter_macro", cls="Hampel", methods={"filter_internal": (F + "hampel.rs", r"impl<T,\s*const N: usize>\s+Hampel<T,\s*N>", ["input", "factor"])},
       file=F + "hampel.rs", impl=r"impl<const N: usize>\s+Filter<\$t>\s+for\s+Hampel<\$t,\s*N>", fn="filter", params={"input": v("x")}, locals={"$f": v("factor")},
       cases=hampel_cases(), imports="Model.Median", rhs="Some ({self.state.median}, {ret})")
@@ -527,6 +534,7 @@ def prim_dq_pop(which):
         if (which == "pop_front") != (o[2][0] == "fwd"): raise Unsupported("%s() on the other end of the deque" % which)
         o2, some_ = dq_expose(sym, o)
         if not some_: return ("opt", None), o2
+        sym.pops = getattr(sym, "pops", 0) + 1          # an element was really removed (termination measure of the deque loops)
         return ("opt", o2[2][1][0]), dq(o2[2][0], o2[2][1][1:], o2[2][2])
     return f
 def prim_dq_push_back(sym, o, args):
@@ -553,6 +561,12 @@ def bounds_summary(sym, env, which, leb):
         _set_taps(sym, env, dq("fwd", [], "(rev (drop_dominated T %s %s (rev %s)))" % (leb, coq_V(env.get("input")), dq_fwd(o))))
     else:
         _set_taps(sym, env, dq("rev", [], "(drop_dominated T %s %s %s)" % (leb, coq_V(env.get("input")), dq_list(o))))
+def _progress(before, after):
+    """termination: an iteration that is followed by another one must have removed an element from the deque (the loop
+    summaries replace `the remaining iterations` by the model's structurally recursive function, which is only sound for a
+    loop that makes progress; `map_or(true, ..)` on an empty deque would spin forever and still satisfy every equation)"""
+    if not after > before:
+        raise Unsupported("a loop iteration that is followed by another one removes no element from the deque: the loop need not terminate")
 def bounds_while(leb):
     def h(sym, env, e):
         from rs2coq import coq_B
@@ -561,10 +575,12 @@ def bounds_while(leb):
             bounds_summary(sym, env, which, leb); return ("unit",)
         if e[0] == "loop":              # loop { match taps.front() { Some(..) if expired => pop, _ => break } }
             from rs2coq import LoopBreak
+            before_ = getattr(sym, "pops", 0)
             try:
                 sym.block(e[1], env)
             except LoopBreak:
                 return ("unit",)
+            _progress(before_, getattr(sym, "pops", 0))
             bounds_summary(sym, env, which, leb); return ("unit",)
         if e[0] == "whilelet":          # while let Some(..) = taps.front() { if expired { pop } else { break } }
             from rs2coq import LoopBreak, Env as _Env
@@ -572,16 +588,21 @@ def bounds_while(leb):
             b_ = sym.pmatch(e[1], v_)
             if b_ is None: return ("unit",)
             inner = _Env(env); inner.vars.update(b_)
+            before_ = getattr(sym, "pops", 0)
             try:
                 sym.block(e[3], inner)
             except LoopBreak:
                 return ("unit",)
+            _progress(before_, getattr(sym, "pops", 0))
             bounds_summary(sym, env, which, leb); return ("unit",)
         c = sym.ev(e[1], env)
         if c[0] != "B": raise Unsupported("loop condition is not a boolean")
         go = True if c[1] == ("btrue",) else False if c[1] == ("bfalse",) else sym.decide("%s = true" % coq_B(c[1]), "%s = false" % coq_B(c[1]))
         if go:
-            sym.block(e[2], env); bounds_summary(sym, env, which, leb)
+            before_ = getattr(sym, "pops", 0)
+            sym.block(e[2], env)
+            _progress(before_, getattr(sym, "pops", 0))
+            bounds_summary(sym, env, which, leb)
         return ("unit",)
     return h
 def bounds_for(sym, env, e):
@@ -1119,7 +1140,7 @@ def is_translated(path, head, name):
         _TRANSLATED = set()
         for es in ENTRIES.values():
             for e_ in es:
-                if e_.get("select") is None or True: _TRANSLATED.add((e_["file"], e_["impl"], e_["fn"]))
+                if e_.get("select") is None: _TRANSLATED.add((e_["file"], e_["impl"], e_["fn"]))      # a loop-only entry does not cover the function
                 for fd in (e_.get("fns") or {}).values():
                     if not callable(fd): _TRANSLATED.add((fd[0], fd[1], fd[2]))
                 for mname, md in list((e_.get("methods") or {}).items()) + [(k_[1], v_) for k_, v_ in (e_.get("class_methods") or {}).items()]:
@@ -1306,6 +1327,7 @@ def run_case(ent, case, body_ast, params_txt, assume=None):
         sym.fns[fname] = method_def(ffile, fimpl, ffn) + tuple(fd[4:5])
         if len(sym.fns[fname][1]) != len(fparams): raise Unsupported("%s takes %d parameters, %d expected" % (fname, len(sym.fns[fname][1]), len(fparams)))
     sym.world = ent.get("world")
+    sym.opaque_lets = ent.get("opaque_lets") or {}
     sym.case = case
     helper_files = [ent["file"]] + sorted({se["file"] for sn in ent.get("subs", []) for es in ENTRIES.values() for se in es if se["name"] == sn or se.get("cls") == sn})
     def find_helper(name):
